@@ -193,8 +193,8 @@ Proof. vm_compute. reflexivity. Qed.
    (1) a dequeued operation is SKIPPED (and handed to _process_finished_op) exactly when the translated test holds of "all
        its execution dependencies succeeded" (exe_deps_succeeded = all(succeeded) over exe_deps);
    (2) "succeeded" is the translated predicate on the operation's state;
-   (3) the translated stop expression of _wait_for_next_inflight_op is `error_occurred and stop_on_first_error` (the model's wait step
-       stops on `negb ok && stop`; this conjunct pins the expression, it does not mention the model);
+   (3) after a wait for a process the model's run is stopped exactly when it was stopped before or the translated
+       `error_occurred and stop_on_first_error` holds of (that process failed, --stop-early);
    (4) "Done!" is reported exactly when the translated verdict `all_succeeded and (main_task_executed or main_task_cached)`
        holds of the completed operations -- otherwise the failure report, never "Done!". *)
 Theorem C03_executor_decisions_are_the_sources :
@@ -208,13 +208,17 @@ Theorem C03_executor_decisions_are_the_sources :
      forall tr', trace (launch_one p jobs stop orc s) <> ESkip o :: tr') /\
   (forall s o, succeeded s o = gen_op_succeeded (ostate_eqb (ost s o) SUCCEEDED) false) /\
   (forall failed stop, gen_wait_stops failed stop = failed && stop) /\
+  (forall p stop orc s, syncs s = [] ->
+     let k := Nat.modulo (pick orc (waits s)) (length (procs s)) in
+     let o := fst (nth k (procs s) (0, None)) in
+     stopped (wait_one p stop orc s) = gen_wait_stops (negb (N.eqb (rc_of orc o) 0)) stop || stopped s) /\
   (forall p root s,
      let all_ok := forallb (succeeded s) (completed s) in
      let main_exec := existsb (fun o => Nat.eqb (op_task (opi p o)) root) (completed s) in
      let main_cached := match completed s with [] => mem root (p_cached p) | _ => false end in
      (gen_verdict_done all_ok main_exec main_cached = true -> report p root s = [EDone; EKill (map fst (procs s))]) /\
      (gen_verdict_done all_ok main_exec main_cached = false -> ~ In EDone (report p root s))).
-Proof. split; [exact skip_tie|]. split; [exact no_skip_tie|]. split; [exact succeeded_tie|]. split; [exact wait_stop_tie|exact report_tie]. Qed.
+Proof. split; [exact skip_tie|]. split; [exact no_skip_tie|]. split; [exact succeeded_tie|]. split; [exact wait_stop_tie|]. split; [exact wait_stop_tie_model|exact report_tie]. Qed.
 Print Assumptions C03_executor_decisions_are_the_sources.
 
 (* the example plan meets the hypothesis of the theorems above *)
